@@ -6,6 +6,7 @@ mod checks;
 mod common;
 mod oracle;
 mod space;
+mod wrapm;
 
 use common::*;
 
@@ -31,7 +32,11 @@ fn run_check(id: &str, tier: Tier) -> i32 {
 		"C05" => checks::c05::run(tier, &reg),
 		"C06" => checks::c06::run(tier, &reg),
 		"C07" => checks::c07::run(tier, &reg),
+		"C08" => checks::c08::run(tier, &reg),
 		"C09" => checks::c09::run(tier, &reg),
+		"C11" => checks::c11::run(tier, &reg),
+		"C12" => checks::c12::run(tier, &reg),
+		"C10" => checks::c10::run(tier),
 		"C13" => checks::c13::run(tier, &reg),
 		"C14" => checks::c14::run(tier, &reg),
 		"C15" => checks::c15::run(tier),
@@ -60,7 +65,11 @@ fn run_replay(id: &str, path: &str) -> i32 {
 		"C05" => checks::c05::replay(&reg, case),
 		"C06" => checks::c06::replay(&reg, case),
 		"C07" => checks::c07::replay(&reg, case),
+		"C08" => checks::c08::replay(&reg, case),
 		"C09" => checks::c09::replay(&reg, case),
+		"C11" => checks::c11::replay(&reg, case),
+		"C12" => checks::c12::replay(&reg, case),
+		"C10" => checks::c10::replay(case),
 		"C13" => checks::c13::replay(&reg, case),
 		"C14" => checks::c14::replay(&reg, case),
 		"C15" => checks::c15::replay(case),
@@ -96,6 +105,7 @@ fn main() {
 		let code = match args.get(1).map(|s| s.as_str()) {
 			Some("c05skip") => checks::c05::worker(&reg, &args[2..]),
 			Some("c05skip1") => checks::c05::worker_one(&reg, &args[2..]),
+			Some("c11deep") => checks::c11::worker(&args[2..]),
 			Some("c09") => {
 				heartbeat_init_keep("C09");
 				checks::c09::worker(&reg, &args[2..])
